@@ -38,6 +38,10 @@ func fixedSchedules(rng *rand.Rand) []sched {
 		{"zero-reads+3", map[string]any{"chunks": []int{3}, "zero_reads": true}},
 		{"eof-with-data", map[string]any{"eof_with_data": true}},
 		{"eof-with-data+1", map[string]any{"chunks": []int{1}, "eof_with_data": true}},
+		{"bytes.Reader", map[string]any{"kind": "bytes.Reader"}},
+		{"bytes.Buffer", map[string]any{"kind": "bytes.Buffer"}},
+		{"bufio(16)+3", map[string]any{"kind": "bufio", "chunks": []int{3}}},
+		{"os.File", map[string]any{"kind": "file"}},
 	}
 }
 
